@@ -1002,8 +1002,8 @@ impl FromStr for Duration {
             .parse()
             .map_err(|e| TemporalError::range().with_message(format!("{e}")))?;
 
-        // NOTE: "P" and "PT" without any component are not durations.
-        if parse_record.date.is_none() && parse_record.time.is_none() {
+        // NOTE: "P" without any component is not a duration (the parser yields an empty date part).
+        if s.trim_start_matches(['+', '-']).len() < 2 {
             return Err(TemporalError::range().with_message("Duration string has no components."));
         }
         // NOTE: The grammar allows at most nine fractional digits.
